@@ -1193,3 +1193,17 @@ Proof.
   pose proof (dupd_invalid c src Hin Hd dctx_init) as H.
   destruct (dupd dctx_init src) as [c1 u]. cbn [snd] in H. destruct u; [destruct H|reflexivity|reflexivity].
 Qed.
+
+(* non-vacuity helpers for Properties_C36.v *)
+Lemma example_no_A3_suffix : forall o, [81; 85; 74; 68] <> enc_spec o ++ A3.
+Proof.
+  intros o H. destruct o as [|a [|b [|c r]]]; cbn [enc_spec app] in H; try discriminate H.
+  injection H as _ _ _ _ H. destruct (enc_spec r); discriminate H.
+Qed.
+
+Lemma example_clean_cred :
+  forallb clean_cred ([65; 108; 97; 100; 100; 105; 110] ++ 58 :: [111; 112; 101; 110]) = true /\
+  ~ In 58 [65; 108; 97; 100; 100; 105; 110].
+Proof.
+  split; [vm_compute; reflexivity|]. cbn. intros H. repeat (destruct H as [H|H]; [discriminate H|]). exact H.
+Qed.
